@@ -225,7 +225,11 @@ func init() {
 			el = *kr
 		}
 		e, err := d.CheckDebsig(el, arg(a, 1))
-		if err != nil || e == nil {
+		if err == nil && e == nil {
+			// no error and no signer: a caller that tests err alone takes this for a successful verification
+			return "ok-nil"
+		}
+		if err != nil {
 			return "err"
 		}
 		// the payload stream handed out by Load must still be usable after the verification
@@ -260,7 +264,9 @@ func init() {
 				el = *kr
 			}
 			e, err := d.CheckDebsig(el, a[i])
-			if err != nil || e == nil {
+			if err == nil && e == nil {
+				out = append(out, "ok-nil")
+			} else if err != nil {
 				out = append(out, "err")
 			} else {
 				out = append(out, "ok:"+entityID(e))
